@@ -31,11 +31,15 @@ pub struct NodeOpts {
     pub ancient: Option<PathBuf>,
     pub store_config: Option<StoreConfig>,
     pub tx_pool_config: Option<TxPoolConfig>,
+    /// configure an assume-valid target the chain never reaches: the node stays in the mode in
+    /// which it skips script execution for the blocks it receives (initial download of mainnet /
+    /// testnet nodes); every other rule still applies
+    pub assume_valid: bool,
 }
 
 impl NodeOpts {
     pub fn new(consensus: Consensus) -> Self {
-        NodeOpts { consensus, pool: false, assembler: false, ancient: None, store_config: None, tx_pool_config: None }
+        NodeOpts { consensus, pool: false, assembler: false, ancient: None, store_config: None, tx_pool_config: None, assume_valid: false }
     }
     pub fn with_pool(mut self) -> Self {
         self.pool = true;
@@ -146,6 +150,11 @@ impl Node {
         }
         if opts.assembler {
             builder = builder.block_assembler_config(Some(assembler_config()));
+        }
+        if opts.assume_valid {
+            let mut sc = ckb_app_config::SyncConfig::default();
+            sc.assume_valid_targets = Some(vec![ckb_types::h256!("0x00000000000000000000000000000000000000000000000000000000deadbeef")]);
+            builder = builder.sync_config(sc);
         }
         let (shared, mut pack) = builder.build().map_err(|e| format!("SharedBuilder::build failed: {e:?}"))?;
         let mut net_dir = None;
